@@ -105,14 +105,14 @@ type logEntry struct {
 
 // BObj is a byte array with a write log over a base content.
 type BObj struct {
-	id    int
-	base  string // SMT array constant; "" otherwise
-	conc  []byte // concrete base (when base == "" and conc != nil); zeros otherwise
-	log   []logEntry
-	size  *Term // allocation size (cap of the original slice)
-	max   int   // concrete upper bound for size if known, else -1
-	ro    bool  // string data
-	tag   string
+	id   int
+	base string // SMT array constant; "" otherwise
+	conc []byte // concrete base (when base == "" and conc != nil); zeros otherwise
+	log  []logEntry
+	size *Term // allocation size (cap of the original slice)
+	max  int   // concrete upper bound for size if known, else -1
+	ro   bool  // string data
+	tag  string
 }
 
 const maxReadDepth = 400
